@@ -27,7 +27,7 @@ ASSUMPTIONS = [
     "composite clauses are judged for composites whose elements share one labeling (m*n and m+m' over equal label arrays)",
     "pre-selected targets are existing non-negative labels",
 ]
-REQUIRED = {"single_calls": 3000, "single_success": 1500, "single_fail_no_eligible": 100, "single_fail_veto": 100, "composite_calls": 1500, "composite_partial": 100, "preselected_calls": 300, "molecule_moves": 500, "negative_label_rows_watched": 1000}
+REQUIRED = {"composite_calls_with_preselected_elements": 300, "single_calls": 3000, "single_success": 1500, "single_fail_no_eligible": 100, "single_fail_veto": 100, "composite_calls": 1500, "composite_partial": 100, "preselected_calls": 300, "molecule_moves": 500, "negative_label_rows_watched": 1000}
 SHARD_TIMEOUT = {"quick": 900, "thorough": 3000}
 
 CALC_LOG: list = []
@@ -122,6 +122,8 @@ def judge_single(rec, move, ctx, pre, out):
     elif move.displaced_labels is not None:
         chosen = int(move.displaced_labels)
     if chosen is None:
+        # success reported, nothing moved and no particle recorded as displaced although particles were eligible
+        rec.viol("C11/single/success-without-displaced-particle", "move reported success but no atom moved and no displaced particle is recorded", wit)
         return
     if pre["target"] is not None and chosen != int(pre["target"]):
         rec.viol("C11/single/preselected-target-ignored", f"pre-selected particle {pre['target']} but particle {chosen} moved", wit)
@@ -329,6 +331,17 @@ def run(spec):
                     if k == 1:
                         comp = comp * 1
                 for _ in range(2):
+                    nn = np.unique(labels[labels >= 0])
+                    if len(nn) and rng.random() < 0.5:
+                        # hostile use of the pre-selection attribute on the elements of a composite: the same target on
+                        # several elements, or a target on a later element only; whatever the composite makes of it, no
+                        # particle may be displaced twice and the count clauses stand
+                        tgt = int(rng.choice(nn))
+                        els = list(comp.moves)
+                        picks = els if rng.random() < 0.5 else els[int(rng.integers(0, len(els))) :]
+                        for el in picks:
+                            el.to_displace_labels = tgt if rng.random() < 0.8 else int(rng.choice(nn))
+                        rec.count("composite_calls_with_preselected_elements")
                     comp(ctx)
         except Exception as ex:  # noqa: BLE001
             rec.viol(f"C11/raised/{type(ex).__name__}", f"displacement move raised {type(ex).__name__}: {ex}", {"labels": labels.tolist(), "veto": vmode})
